@@ -18,8 +18,15 @@ RULE = ("Timeslot methods on every pair of slots of a 0..4 grid (negative durati
         "union <=2 vs <=2 arbitrary on 0..5 and 3 vs <=1 on 0..4, plus 400k+300k sampled <=3-vs-<=3), then "
         "seeded random lists of 0..8 events "
         "(chains with sub-millisecond durations, shuffled; overlapping lists; a stream with unaligned "
-        "timestamps written past the setter); non-trivial = distinct canonical case with at least one "
-        "positively overlapping pair (intersection) or at least one merge (union)")
+        "timestamps written past the setter); five lists of 10 001+ events (one side, both sides, both functions); "
+        "HISTORIES (harness/c09_hist.py): 44 hand-written + 900 (thorough 40 000) seeded sessions, each a sequence of calls "
+        "in one fresh process on live Event objects - the same lists passed again after the caller changed an event, "
+        "deep copies / flood() of earlier results, results annotated in place (put, categorize, tag) before later calls, "
+        "results fed back, the same object on both sides - through the module function, the aw_transform export and the "
+        "aw_query.functions registry; every call judged and modelled on its own arguments as they are at call time; "
+        "non-trivial = distinct canonical case with at least one "
+        "positively overlapping pair (intersection) or at least one merge (union); for a history call: second or later "
+        "call of its session with a non-empty result")
 
 DATA = [{"app": "a"}, {"app": "b"}, {"title": "x", "n": 1}, {}, {"afk": True}]
 ERRCODE = {"KeyError": 4, "ValueError": 5, "IndexError": 6, "AttributeError": 7, "TypeError": 8}
